@@ -71,6 +71,8 @@ enum Op {
     /// the flow's peer goes away (ECONNREFUSED latched on the flow's socket), comes back on the same
     /// port and sends to the flow's old socket: the error surfaces on the *receive* path
     PeerRestart,
+    /// 2-3 queries on one port-53 flow before the first answer: every answer must come back, then the socket is released
+    DnsBurst,
 }
 
 struct Server {
@@ -79,7 +81,7 @@ struct Server {
     sock: Arc<UdpSocket>,
 }
 
-async fn start_server(bind: &str, echo: bool) -> Server {
+async fn start_server_delayed(bind: &str, echo: bool, delay_ms: u64) -> Server {
     let sock = Arc::new(UdpSocket::bind(bind).await.expect("udp bind"));
     let addr = sock.local_addr().unwrap();
     let received: Arc<Mutex<Vec<(Vec<u8>, SocketAddr)>>> = Default::default();
@@ -93,13 +95,16 @@ async fn start_server(bind: &str, echo: bool) -> Server {
                 if echo {
                     let mut r = b"R:".to_vec();
                     r.extend_from_slice(&buf[..n]);
-                    let _ = sock.send_to(&r, from).await;
+                    if delay_ms == 0 { let _ = sock.send_to(&r, from).await; }
+                    else { let sock = sock.clone(); tokio::spawn(async move { tokio::time::sleep(Duration::from_millis(delay_ms)).await; let _ = sock.send_to(&r, from).await; }); }
                 }
             }
         });
     }
     Server { addr, received, sock }
 }
+
+async fn start_server(bind: &str, echo: bool) -> Server { start_server_delayed(bind, echo, 0).await }
 
 struct HistoryResult {
     bad: Vec<(String, Value)>,
@@ -118,8 +123,15 @@ async fn run_history(root: std::path::PathBuf, seed: u64, h: u64, t_ms: u64, cou
     let mut servers = vec![];
     for _ in 0..3 { servers.push(start_server("127.0.0.1:0", true).await); }
     let silent = start_server("127.0.0.1:0", false).await;
-    let dns = match UdpSocket::bind("127.0.0.9:53").await {
-        Ok(s) => { drop(s); Some(start_server("127.0.0.9:53", true).await) }
+    // every history has its own loopback addresses for its port-53 servers (histories run in parallel)
+    let dns_ip = |last: u8| format!("127.{}.{}.{}:53", 10 + h % 100, (h / 100) % 250, last);
+    let dns = match UdpSocket::bind(dns_ip(9)).await {
+        Ok(s) => { drop(s); Some(start_server(&dns_ip(9), true).await) }
+        Err(_) => None,
+    };
+    // a port-53 server that answers after 120 ms, so that several queries of one flow are outstanding at once
+    let dns_slow = match UdpSocket::bind(dns_ip(10)).await {
+        Ok(s) => { drop(s); Some(start_server_delayed(&dns_ip(10), true, 120).await) }
         Err(_) => None,
     };
     let closed_port = { let s = std::net::UdpSocket::bind("127.0.0.1:0").unwrap(); s.local_addr().unwrap().port() };
@@ -129,6 +141,8 @@ async fn run_history(root: std::path::PathBuf, seed: u64, h: u64, t_ms: u64, cou
     let mut flows: Vec<(SocketAddr, SocketAddr)> = vec![
         (client(0), servers[0].addr), (client(1), servers[1].addr), (client(2), servers[0].addr), (client(0), servers[2].addr), (client(3), silent.addr),
     ];
+    if let Some(d) = &dns_slow { flows.push((client(6), d.addr)); }
+    let slow_flow = if dns_slow.is_some() { Some(flows.len() - 1) } else { None };
     if let Some(d) = &dns { flows.push((client(4), d.addr)); }
     let nflows_plain = 5;
     let (tx, rx) = tokio::sync::mpsc::unbounded_channel();
@@ -146,7 +160,7 @@ async fn run_history(root: std::path::PathBuf, seed: u64, h: u64, t_ms: u64, cou
     let nops = r.range(10, 26) as usize;
     let mut ops = vec![];
     for _ in 0..nops {
-        ops.push(match r.below(15) {
+        ops.push(match r.below(16) {
             0..=5 => Op::Send(r.below(nflows_plain as u64) as usize),
             6 => Op::Burst(r.below(3) as usize, r.range(2, 6) as usize),
             7 => Op::ExtraReply(r.below(3) as usize),
@@ -156,10 +170,12 @@ async fn run_history(root: std::path::PathBuf, seed: u64, h: u64, t_ms: u64, cou
             11 => Op::Unconnectable,
             12 => Op::ClosedPort,
             13 => Op::PeerRestart,
+            14 => Op::DnsBurst,
             _ => Op::Dns,
         });
     }
     if h % 3 == 0 { let at = r.below(ops.len() as u64 + 1) as usize; ops.insert(at, Op::PeerRestart); }
+    if h % 3 == 1 { let at = r.below(ops.len() as u64 + 1) as usize; ops.insert(at, Op::DnsBurst); }
     ops.push(Op::Send(0));
     ops.push(Op::Send(1));
     let mut seq = 0u64;
@@ -277,6 +293,19 @@ async fn run_history(root: std::path::PathBuf, seed: u64, h: u64, t_ms: u64, cou
                     }
                 }
             }
+            Op::DnsBurst => {
+                if let Some(f) = slow_flow {
+                    tokio::time::sleep(Duration::from_millis(60)).await;
+                    let before = metrics_snapshot(&ctx).outbound_udp;
+                    let k = r.range(2, 3);
+                    for _ in 0..k { seq += 1; let p = mk_payload(f, seq); send(f, &p); sent.push((f, p, Instant::now())); }
+                    // all answers arrive 120 ms after their queries; afterwards the flow has nothing outstanding
+                    tokio::time::sleep(Duration::from_millis(120 + 200)).await;
+                    let after = metrics_snapshot(&ctx).outbound_udp;
+                    if after > before { res.bad.push(("port-53 flow keeps its socket after all of its queries were answered".into(), json!({"kind":"udp-flows","gauge_before":before,"gauge_after":after,"history":h,"queries":k}))); }
+                    else { *res.tallies.entry("dns burst: socket released once every outstanding query was answered".into()).or_insert(0) += 1; }
+                }
+            }
             Op::Dns => {
                 if dns.is_some() {
                     let f = flows.len() - 1;
@@ -317,7 +346,7 @@ async fn run_history(root: std::path::PathBuf, seed: u64, h: u64, t_ms: u64, cou
         let dst = flows[*flow].1;
         // where did it arrive
         let mut arrived_at = vec![];
-        for s in servers.iter().chain(std::iter::once(&silent)).chain(dns.iter()) {
+        for s in servers.iter().chain(std::iter::once(&silent)).chain(dns.iter()).chain(dns_slow.iter()) {
             if s.received.lock().unwrap().iter().any(|(p, _)| p == payload) { arrived_at.push(s.addr); }
         }
         if arrived_at.iter().any(|a| *a != dst) {
@@ -356,7 +385,7 @@ pub fn run(args: &Args) -> i32 {
         "exploration",
         "history = 12-28 operations over 5-6 flows (two clients sharing a destination, one client with two destinations, a silent peer, a port-53 flow): \
          client datagram, burst, unsolicited peer datagram, waits of T/4, T/2 and 2T+300 ms, datagrams to a destination that cannot be connected \
-         (255.255.255.255, EACCES) and to a closed port (ECONNREFUSED), a peer that restarts (socket error surfacing on the receive path, then a datagram on the same pair), DNS query; through the real udp_pipe::DuplexPipe + udp_forwarder multiplexer against \
+         (255.255.255.255, EACCES) and to a closed port (ECONNREFUSED), a peer that restarts (socket error surfacing on the receive path, then a datagram on the same pair), DNS query, 2-3 DNS queries outstanding at once on one port-53 flow (slow resolver); through the real udp_pipe::DuplexPipe + udp_forwarder multiplexer against \
          real loopback UDP servers in real time with T in {300, 400} ms. Every datagram carries a unique id. distinct_nontrivial = distinct histories.",
     ));
     rep.assume("expiry is only asserted after 2T + 250 ms without activity on every flow; waits whose overshoot exceeds 150 ms make the history inconclusive");
